@@ -261,7 +261,7 @@ class C18(Machine):
             if rng.random() < 0.4:
                 sim['receiver_interpolation'] = rng.choice(['linear',
                                                             'cubic'])
-            if layered and rng.random() < 0.5:
+            if layered and rng.random() < 0.35:
                 sim['layered'] = True
             sec['simulation'] = sim
             if rng.random() < 0.7:
@@ -273,13 +273,17 @@ class C18(Machine):
             if rng.random() < 0.4:
                 sec['data'] = self._gen_data(rng, survey, None)
             if layered:
-                inv['layered_run'] = True
+                # in a session whose survey the 1D mode supports, layered is
+                # chosen per invocation: a loaded simulation may be switched
+                inv['layered_run'] = rng.random() < 0.7
                 if rng.random() < 0.6:
                     sec['layered'] = self._pick(rng, LAYERED, 0.4)
             elif rng.random() < 0.15:
                 # a [layered] section without layered mode: not used by this
                 # run, but part of the simulation that is saved
                 sec['layered'] = self._pick(rng, LAYERED, 0.4)
+        if sec.get('simulation', {}).get('layered'):
+            inv['layered_run'] = True
         inv['auto'] = auto
         # command-line arguments that overlap the config file
         a = inv['args']
